@@ -10,6 +10,7 @@
  4. `is` compares identities: runtime_addr_check's (Object, Object) arm compares id_addr of both operands;
     id_addr is the address behind debug_lock; Object::clone copies the identity pointer (Gc::clone)
 """
+import re
 import mir
 import rules
 from mir import op_local, op_const
@@ -216,6 +217,7 @@ def run(ctx, rep):
     no_view_stored(F, rep, ctx)
     code_labels(ctx, rep)
     receiver_is_bound(ctx, rep)
+    methods_made_before_fields(ctx, rep)
     # bin_op dispatches `is` to runtime_addr_check
     bo = need(F, "bytecode::instruction::implementations::bin_op")
     rep.ob("C08.identity-test", "bin_op dispatches to runtime_addr_check", "ok" if bo.calls_to("bytecode::variables::primitive::Primitive::runtime_addr_check") else "violated",
@@ -322,7 +324,9 @@ def code_labels(ctx, rep):
             v = rv["agg"].get("v")
             l = op_local(rv["ops"][0]) if rv["ops"] else None
             label = "%s builds a %s code label" % (mir.short(f.path), v)
-            key = "C08.code-label|%s|%s" % (mir.short(f.path), v)
+            # keyed by the type that owns the generator, not by the method it happens to sit in
+            owner = re.match(r"<?([A-Za-z_]\w*)", mir.short(f.path))
+            key = "C08.code-label|%s|%s" % (owner.group(1) if owner else mir.short(f.path), v)
             if v == "Generated":
                 rep.ob("C08.code-label", label + " from the file's counter", "ok", "", s_.get("sp"), fn=f.path, key=key)
                 continue
@@ -427,3 +431,74 @@ def receiver_is_bound(ctx, rep):
     rep.floor("C08.receiver-bound paths that name a receiver register", named, 1)
     rep.ob("C08.receiver-bound", "a method-call link stores the receiver into the register it tells the call to load `self` from",
            "violated" if bad else ("undecided" if und else "ok"), "; ".join((bad or und)[:2]), f.span, fn=f.path, key="C08.receiver-bound")
+
+
+
+def methods_made_before_fields(ctx, rep):
+    """The functions of a class - its methods and its constructor - are made (make_function) inside the class-body frame, and make_function
+    captures each free name of the function by looking it up *then*, own frame first.  The fields are variables of that same frame.  A method
+    that reads a module-level `n` therefore captures the field `n` instead if the field already exists when the method is made (and reads
+    nil, or a value of another type, under a static type that says module-level `n`).  So in the code ClassBody::compile emits, everything
+    that makes a function comes before everything that declares a field: in its MIR no method-compile call and no constructor-compile call is
+    reachable from a field-compile call, and the constructor's function is appended before the fields."""
+    F = ctx.facts("default", ["compiler", "bytecode"])
+    f = F.fn("<compiler::ast::class::class_body::ClassBody as compiler::ast::Compile>::compile")
+    cf = F.adt("compiler::ast::class::class_feature::ClassFeature")
+    if f is None or cf is None:
+        raise AnchorMissing("<ClassBody as Compile>::compile / ClassFeature")
+    names = [v["name"] for v in cf["variants"]]
+    if "Function" not in names or "Variable" not in names:
+        raise AnchorMissing("ClassFeature::{Function, Variable}")
+    fi, vi = str(names.index("Function")), str(names.index("Variable"))
+    feat_calls = [c for c in f.calls() if "ClassFeature" in c.callee() and c.callee().endswith("::compile")]
+    ctor_calls = [c for c in f.calls() if "Constructor" in c.callee() and ("compile" in c.callee().split("::")[-1])]
+    if not feat_calls or not ctor_calls:
+        rep.ob("C08.method-captures", "ClassBody::compile compiles its features and its constructor", "undecided", "calls not found", f.span, fn=f.path,
+               key="C08.method-captures")
+        return
+    # edges of switches on a ClassFeature discriminant
+    fn_edges, var_edges, other_edges = set(), set(), set()
+    for bb, blk in enumerate(f.blocks):
+        t = blk["t"]
+        if t["k"] != "switch":
+            continue
+        dl = op_local(t["discr"])
+        base = None
+        for s_ in blk["s"]:
+            if "d" in s_ and s_["d"]["l"] == dl and "discr" in s_["rv"]:
+                base = s_["rv"]["discr"]["l"]
+        if base is None or not f.locals[base].lstrip("&").replace("mut ", "").strip().startswith("compiler::ast::class::class_feature::ClassFeature"):
+            continue
+        tg = dict((str(v), b) for v, b in t["targets"])
+        # `if let Function(..) = x`: targets [[0, then]] otherwise else
+        for v, b in tg.items():
+            (fn_edges if v == fi else var_edges if v == vi else other_edges).add((bb, b))
+        oth = t["otherwise"]
+        if len(tg) == 1:
+            # the otherwise edge is `the other variant`: it leads away from the call in an `if let`
+            pass
+
+    def only_via(call, edges):
+        """the call is unreachable once the given edges are removed"""
+        return bool(edges) and call.bb not in f.reachable(0, removed_edges=edges)
+    M = [c for c in feat_calls if only_via(c, fn_edges)]
+    V = [c for c in feat_calls if only_via(c, var_edges)]
+    B = [c for c in feat_calls if c not in M and c not in V]
+    problems = []
+    if B:
+        problems.append("features are compiled in declaration order (one loop for methods and fields alike): a method declared after a field `n` captures that field "
+                        "for every free `n`")
+    for v in V + B:
+        after = f.reachable(v.target) if v.target is not None else set()
+        if any(m.bb in after for m in M + B if m is not v or True) and (M or B) and any(m.bb in after for m in M):
+            problems.append("a method is made after a field was declared")
+        if any(k.bb in after for k in ctor_calls):
+            problems.append("the constructor is compiled after a field was declared: its function captures fields instead of outer variables of the same name "
+                            "(`constructor(self) { self.n = n + 1 }` reads the nil field)")
+    # the constructor's function must be appended before the first field: with a single `compile` (one block of code) that is impossible
+    two_step = [k for k in ctor_calls if "two_steps" in k.callee() or "split" in k.callee()]
+    if not two_step and V:
+        problems.append("the constructor's code is one block placed after the fields, so its make_function runs when the fields exist")
+    rep.ob("C08.method-captures", "in a class body every function (methods, constructor) is made before any field is declared",
+           "violated" if problems else "ok", "; ".join(sorted(set(problems))[:3]) if problems else "%d method site(s), %d field site(s)" % (len(M), len(V)),
+           feat_calls[0].span, fn=f.path, key="C08.method-captures")
